@@ -186,6 +186,11 @@ CHECKS["C04"]["stages"].append(
     {"name": "tcp-isolation", "pkg": "srvworld", "run": "^TestC04TCP$",
      "quick": {"shards": 2, "checks": 2000, "timeout_s": 420},
      "thorough": {"shards": 8, "checks": 6000, "size": 40, "timeout_s": 2400}})
+for _pid in ("C01", "C02", "C07"):
+    CHECKS[_pid]["stages"].append(
+        {"name": "permission-key", "pkg": "pure", "run": "^TestAddrKey$",
+         "quick": {"shards": 2, "checks": 1000, "timeout_s": 300},
+         "thorough": {"shards": 8, "checks": 10000, "timeout_s": 1200}})
 CHECKS["C04"]["stages"].append(
     {"name": "allocation-key", "pkg": "pure", "run": "^TestC04Fingerprint$",
      "quick": {"shards": 2, "checks": 2000, "timeout_s": 300},
